@@ -325,6 +325,11 @@ def build(md, cfg=None, setup=True):
             p.model.add_objective(rs['name'] or out_path(md, rs['oid']), **_fl(kw))
         else:
             p.model.add_constraint(rs['name'] or out_path(md, rs['oid']), **_fl(kw))
+    if cfg.get('coloring') and md.get('desvars') and md.get('responses'):
+        # simultaneous-derivative coloring of the totals (dynamic: computed at the first compute_totals)
+        p.driver = om.ScipyOptimizeDriver(optimizer='SLSQP')
+        p.driver.declare_coloring(show_summary=False, min_improve_pct=0., direct=(cfg['coloring'] != 'subst'),
+                                  num_full_jacs=2)
     if setup:
         p.setup(mode=cfg.get('mode', 'auto'), force_alloc_complex=bool(cfg.get('force_alloc_complex', False)))
     return p
